@@ -94,6 +94,9 @@ C15same(i) == (Tr[i].op = "stream" /\ Ok(i)) =>
                  \A k \in 1..(i - 1) : (Tr[k].op = "stream" /\ Tr[k].post.status = "ok") =>
                     LET both == JobsOfPv(Tr[k].pv) \cap JobsOfPv(Tr[i].pv)
                     IN {p \in Tr[k].pv : \E e \in p.evs : e.job \in both} = {p \in Tr[i].pv : \E e \in p.evs : e.job \in both}
+\* a run without the unique-graph filter outputs every stored trace
+C15all(i) == (Tr[i].op = "stream" /\ Ok(i) /\ SelOfRun(i) = NoSel) =>
+                JobsOfPv(Tr[i].pv) = {n.job : n \in Tr[i].post.nodes}
 IngestedBefore(i) == \E k \in 1..i : Tr[k].op = "exit" /\ Tr[k].post.status = "ok"
 C15classes(i) == (Tr[i].op = "ug" /\ Ok(i) /\ IngestedBefore(i)) =>
                     \A k \in 1..(i - 1) : (Tr[k].op = "ug" /\ Tr[k].post.status = "ok" /\ IngestedBefore(k)) =>
@@ -106,9 +109,9 @@ Clause(c, i) == CASE c = "C10crash" -> C10crash(i) [] c = "C10unique" -> C10uniq
                   [] c = "C12once" -> C12once(i) [] c = "C12exact" -> C12exact(i) [] c = "C12pv" -> C12pv(i)
                   [] c = "C12completes" -> C12completes(i)
                   [] c = "C15completes" -> C15completes(i) [] c = "C15same" -> C15same(i)
-                  [] c = "C15classes" -> C15classes(i)
+                  [] c = "C15classes" -> C15classes(i) [] c = "C15all" -> C15all(i)
 Clauses == {"C10crash", "C10unique", "C10exact", "C11incons", "C11window", "C11names", "C11frame", "C11twin", "C11after", "C09exact",
-            "C12once", "C12exact", "C12pv", "C12completes", "C15completes", "C15same", "C15classes"}
+            "C12once", "C12exact", "C12pv", "C12completes", "C15completes", "C15same", "C15classes", "C15all"}
 
 (* ---------------- reporting (always TRUE) ---------------- *)
 Report == /\ (l > 1) => \A c \in Clauses : Clause(c, l - 1) \/ PrintT(<<"BAD", tid, c, l - 1>>)
